@@ -1388,7 +1388,20 @@ flatcc_builder_ref_t flatcc_builder_end_table(flatcc_builder_t *B)
      */
     check(tsize <= FLATBUFFERS_VOFFSET_MAX, "table too large"); 
     vt[1] = (voffset_t)tsize;
-    FLATCC_BUILDER_UPDATE_VT_HASH(B->vt_hash, (uint32_t)vt[0], (uint32_t)vt[1]);
+    /*
+     * Hash the finished vtable, not the sequence of add calls: tables
+     * whose vtables are identical but whose fields were added in another
+     * order or with other sizes must find each other in the cache.
+     */
+    {
+        voffset_t k;
+
+        B->vt_hash = 0;
+        FLATCC_BUILDER_INIT_VT_HASH(B->vt_hash);
+        for (k = 0; k < vt_size / sizeof(voffset_t); ++k) {
+            FLATCC_BUILDER_UPDATE_VT_HASH(B->vt_hash, (uint32_t)k, (uint32_t)vt[k]);
+        }
+    }
     /* Find already emitted vtable, or emit a new one. */
     if (!(vt_ref = flatcc_builder_create_cached_vtable(B, vt, vt_size, B->vt_hash))) {
         return 0;
